@@ -551,4 +551,54 @@ def hasEqNull : List Tok → Bool
   | [] => false
   | t :: ts => (t.isEqLike && ts.head? == some Tok.null) || hasEqNull ts
 
+/-! ### the lexical level: binary and prefix operators are told apart by position -/
+
+/-- what a lexer sees: operator and keyword tokens are just spelled words -/
+inductive Sym where
+  | lp | rp | comma | null | kwIn
+  | col (c : Nat)
+  | num (n : Nat)
+  | fn (f : Fn)
+  | word (s : String)
+deriving DecidableEq, Repr
+
+def Tok.erase : Tok → Sym
+  | .lp => .lp | .rp => .rp | .comma => .comma | .null => .null | .kwIn => .kwIn
+  | .col c => .col c | .num n => .num n | .fn f => .fn f
+  | .op o => .word o.spell
+  | .pre p => .word p.spell
+
+def BinOp.all : List BinOp :=
+  [.add, .sub, .mul, .div, .mod, .lt, .le, .gt, .ge, .eq, .ne, .and, .or, .is, .isNot]
+
+def BinOp.ofSpell (s : String) : Option BinOp := BinOp.all.find? (fun o => o.spell == s)
+def PreOp.ofSpell (s : String) : Option PreOp := [PreOp.neg, .pos, .not].find? (fun p => p.spell == s)
+
+/-- Position-based classification, as every SQL parser does it: a word that follows a complete
+    operand (`afterOperand = true`) is a binary operator, any other word is a prefix operator. -/
+def retag : Bool → List Sym → Option (List Tok)
+  | _, [] => some []
+  | _, .lp :: rest => (retag false rest).map (Tok.lp :: ·)
+  | _, .rp :: rest => (retag true rest).map (Tok.rp :: ·)
+  | _, .comma :: rest => (retag false rest).map (Tok.comma :: ·)
+  | _, .null :: rest => (retag true rest).map (Tok.null :: ·)
+  | _, .kwIn :: rest => (retag false rest).map (Tok.kwIn :: ·)
+  | _, .col c :: rest => (retag true rest).map (Tok.col c :: ·)
+  | _, .num n :: rest => (retag true rest).map (Tok.num n :: ·)
+  | _, .fn f :: rest => (retag false rest).map (Tok.fn f :: ·)
+  | true, .word s :: rest =>
+    match BinOp.ofSpell s with
+    | some o => (retag false rest).map (Tok.op o :: ·)
+    | none => none
+  | false, .word s :: rest =>
+    match PreOp.ofSpell s with
+    | some p => (retag false rest).map (Tok.pre p :: ·)
+    | none => none
+
+/-- lexical symbols → typed tokens (by position) → syntax tree -/
+def parseText (P : Prec) (syms : List Sym) : Option T :=
+  match retag false syms with
+  | some ts => parse P ts
+  | none => none
+
 end SqlObjVerif.Expr
